@@ -17,7 +17,9 @@ Restrict(f, S) == [k \in (DOMAIN f) \cap S |-> f[k]]
 
 Reset(r) == LET p == r.p k0 == IF r.p = 0 THEN 0 ELSE r.t0 \div r.p IN
             /\ P' = p /\ MaxFiles' = r.max_files /\ cur' = k0 /\ nextDate' = (IF p = 0 THEN 0 ELSE (k0 + 1) * p)
-            /\ files' = (k0 :> << >>) /\ created' = <<k0>>
+            \* r.left: files an earlier run of the program left in the directory (period, contents), oldest first
+            /\ files' = (k0 :> << >>) @@ [k \in {r.left[i].k : i \in DOMAIN r.left} |-> r.left[CHOOSE i \in DOMAIN r.left : r.left[i].k = k].ids]
+            /\ created' = [i \in DOMAIN r.left |-> r.left[i].k] \o <<k0>>
 Write(now, id) ==
   IF Due(now) THEN
     LET k == Period(now) kept == Pruned(created) base == Restrict(files, SetOf(kept))
